@@ -1,5 +1,5 @@
 """connlib.py — shared runner for the protocol-layer properties (C02, C03, C09, C10, C18)."""
-from vlib import Failure, compare, finish, unhexs
+from vlib import Failure, compare, finish, hexs, unhexs
 
 COQ_FILES = ["Bytes.v", "Tables.v", "ParserModel.v", "BuilderModel.v", "ConnModel.v", "ParserProofs.v", "ConnProofs.v", "GrammarProofs.v"]
 
@@ -133,3 +133,27 @@ def replay_bigbin(ctx, cases):
             bad += 1
             print(f"VIOLATION property={ctx.prop} replay=(this case) large payload handled differently")
     return 1 if bad else 0
+
+
+def interrupted_stream_cases(responses, flavours="ab"):
+    """The stream of these (mpdgen) responses with ONE interrupted receive after every line (and inside the first line): the
+    outcomes are the responses in order with the transient failure where it struck, then the clean end.  -> [(case, expected text)]"""
+    import mpdgen as g
+    encs = [g.enc_response(r) for r in responses]
+    shows = [g.show_response(r) for r in responses]
+    st = b"".join(encs)
+    ends = []
+    acc = 0
+    for e in encs:
+        acc += len(e)
+        ends.append(acc)
+    out = []
+    cuts = sorted(set([i + 1 for i, c in enumerate(st) if c == 10] + [2]))
+    for k in cuts:
+        if not (0 < k < len(st)):
+            continue
+        done = sum(1 for e in ends if e <= k)
+        exp = " | ".join(shows[:done] + ["io"] + shows[done:] + ["eof"])
+        for fl in flavours:
+            out.append((" ".join(["recv", fl, "0", "eof", hexs(st[:k]), "!", hexs(st[k:])]), exp))
+    return out
